@@ -15,6 +15,7 @@
                         rsn/msg = Reason/Message text of the result condition *)
 From Coq Require Import List Bool ZArith String.
 From CliUtils Require Import Base.Json Model.KStatus Proofs.KStatusProofs Proofs.KStatusC07Proofs.
+From CliUtils Require Import Generated.SourceTables Proofs.SourceTablesAgree.
 Import ListNotations.
 Local Open Scope string_scope.
 
@@ -73,6 +74,13 @@ Theorem C07_augment_stable : forall (j : jv) (w : bool) (t rsn msg : string) (j'
   augment j w t rsn msg = Some j' -> status_of (compute j' w) = status_of (compute j w).
 Proof. exact augment_stable. Qed.
 
+(* the kind dispatch of the model is the legacyTypes table extracted from
+   pkg/kstatus/status/core.go on this run (harness/cmd/gentables) *)
+Theorem C07_dispatch_from_source : forall key,
+  KStatus.legacy_of_key key =
+  match assoc key src_legacy_types with Some fn => legacy_of_fn fn | None => None end.
+Proof. exact legacy_dispatch_from_source. Qed.
+
 Print Assumptions C07_terminating.
 Print Assumptions C07_generation.
 Print Assumptions C07_conditions.
@@ -112,3 +120,4 @@ Example C07_ex_augment :
              items_of j' = [ex_cond "Available" "True"; new_cond_item "Reconciling" "True" "LessReady" "m" "T"] /\
              compute j' false = Ok InProgress [("Reconciling", "True")].
 Proof. eexists. split; [vm_compute; reflexivity|]. split; vm_compute; reflexivity. Qed.
+Print Assumptions C07_dispatch_from_source.
